@@ -76,6 +76,11 @@ def programs(tier, seed):
                 continue
             progs.append((("st", "p", 0, wide, 1), ("st", other[0], other[1], mid, 1), ("st", "p", 0, narrow, 1), ("ld", "p", 0, wide, 1)))
             progs.append((("st", "p", 0, wide, 1), ("st", other[0], other[1], mid, 1), ("st", "p", 0, narrow, 1)))
+    # a LOADED value (it carries the list of earlier possibly-aliasing stores) is stored elsewhere, partly
+    # overwritten through another offset of that base, and read back: the surviving pieces must still replay the stores
+    for size, part, poff in ((32, 8, 1), (32, 16, 2), (64, 8, 5), (64, 32, 4)):
+        progs.append((("st", "p", 0, size, 1), ("st", "q", 0, size, 1), ("ld", "p", 0, size, 1), ("st", "r", 0, 8, 1),
+                      ("st", "q", 8, size, 1), ("st", "q", 8 + poff, part, 1), ("ld", "q", 8, size, 1)))
     # same-base overlap programs (zone logic): offsets only
     same = accesses(1, [0, 1, 2, 3, -1, 4], SIZES, [1, -1])
     if tier == "quick":
